@@ -299,6 +299,43 @@ Definition pqstep (l : list N) (o : pqop) : list N * pqout :=
   | PSize => (l, PLen (N.of_nat (length l)))
   end.
 
+(* ---- several tasks on ONE priority queue ----
+   Every exported method of PriorityQueue is one critical section of the queue's mutex from its first
+   to its last statement - NextAll included, whose callbacks run under the lock (generated skeletons of
+   priority.go) - so with several tasks, each performing its own list of operations, a schedule decides
+   only WHICH task performs its next operation.  [pq_conc] runs a schedule and keeps what was added,
+   what was handed out (in order, per operation) and the queue. *)
+Definition handed_by (l : list N) (o : pqop) : list N :=
+  match o with
+  | PNext => match heap_pop l with Some (x, _) => [x] | None => [] end
+  | PNextAll => pop_all (length l) l
+  | _ => []
+  end.
+Definition added_by (o : pqop) : list N := match o with PAdd x => [x] | _ => [] end.
+
+Fixpoint set_prog (t : nat) (p : list pqop) (progs : list (list pqop)) : list (list pqop) :=
+  match progs, t with
+  | [], _ => []
+  | _ :: ps, O => p :: ps
+  | q :: ps, S t' => q :: set_prog t' p ps
+  end.
+
+Record pqconc := mkPQ { pq_items : list N; pq_added : list N; pq_handed : list (list N) }.
+
+Fixpoint pq_conc (st : pqconc) (progs : list (list pqop)) (sched : list nat) : pqconc :=
+  match sched with
+  | [] => st
+  | t :: sched' =>
+      match nth_error progs t with
+      | Some (o :: rest) =>
+          let l := pq_items st in
+          pq_conc (mkPQ (fst (pqstep l o)) (pq_added st ++ added_by o)
+                        (match o with PNext | PNextAll => pq_handed st ++ [handed_by l o] | _ => pq_handed st end))
+                  (set_prog t rest progs) sched'
+      | _ => pq_conc st progs sched'
+      end
+  end.
+
 Fixpoint pqrun (l : list N) (ops : list pqop) : list pqout :=
   match ops with [] => [] | o :: ops' => let '(l', r) := pqstep l o in r :: pqrun l' ops' end.
 
@@ -325,7 +362,19 @@ Inductive case :=
 (* the same with a consumer that first calls Pop [prepop] times (non-blocking) and then waits *)
 | CSchedPop (cap : N) (prepop : nat) (items : list (list N)) (want : nat) (with_cancel : bool)
          (sched : list N) (obs : list (list N)) (final_got : list (option N)) (final_q : list N)
-| CPrio (ops : list pqop) (obs : list pqout).
+| CPrio (ops : list pqop) (obs : list pqout)
+(* several tasks on one priority queue: what was queued first, the tasks' operations, the order in which
+   the tasks passed the queue's lock, what each Next / NextAll that handed something out handed out (in
+   that order), and what was left in the end (taken with Next) *)
+| CPrioConc (initial : list N) (progs : list (list pqop)) (lock_order : list nat)
+            (handed : list (list N)) (remaining : list N).
+
+Fixpoint lists_eqb (a b : list (list N)) : bool :=
+  match a, b with
+  | [], [] => true
+  | x :: a', y :: b' => list_eqb x y && lists_eqb a' b'
+  | _, _ => false
+  end.
 
 Definition check_case (c : case) : bool :=
   match c with
@@ -336,6 +385,10 @@ Definition check_case (c : case) : bool :=
     let s0 := init_pop pp items want wc in
     existsb (fun s => opts_eqb (rev (c_got s)) got && list_eqb (q s) fq) (follow cap [s0] sched obs)
   | CPrio ops obs => pqouts_eqb (pqrun [] ops) obs
+  | CPrioConc initial progs lin handed remaining =>
+    let st := pq_conc (mkPQ (fold_left heap_push initial []) [] []) progs lin in
+    lists_eqb (filter (fun h => negb (Nat.eqb (length h) 0)) (pq_handed st)) handed &&
+    list_eqb (pop_all (length (pq_items st)) (pq_items st)) remaining
   end.
 
 Fixpoint mismatches_from (i : N) (cs : list case) : list N :=
